@@ -38,6 +38,22 @@ def get_joint_excess_distributions(jdd):
     return qks
 ''']
 
+# the averages list has one entry per topology (C14.1: avg = [0.0] * len(first key)), so a loop over its entries is the
+# same loop over the topology indices
+REF_FORWARD.append('''
+def get_joint_excess_distributions(jdd):
+    qks = []
+    for i in range(len(AverageJointDegreeFromJDD.get_average_joint_degrees(jdd))):
+        q = {}
+        for k in list(jdd.keys()):
+            if k[i] > 0:
+                t = list(k)
+                t[i] -= 1
+                q[tuple(t)] = k[i] * jdd[k] / AverageJointDegreeFromJDD.get_average_joint_degrees(jdd)[i]
+        qks.append(q)
+    return qks
+''')
+
 REF_INVERT = ['''
 def invert_single(qk, i):
     P = {}
@@ -108,8 +124,14 @@ def run(ctx):
         conform(o, prog.func("JointExcessfromJDD.get_joint_excess_distributions"), REF_FORWARD, "excess distribution")
 
     with ctx.obligation("C14.3", "single inversion: P_i(k + e_i) = (q(k)/(k_i+1)) / sum_k' q(k')/(k'_i+1)", floor=2) as o:
-        conform(o, prog.func("JointDegreeFromExcess.invert_single"), REF_INVERT, "invert_single")
+        inv = prog.func("JointDegreeFromExcess.invert_single")
+        conform(o, inv, REF_INVERT, "invert_single")
         conform(o, prog.func("JointDegreeFromExcess.observations_from_dict"), REF_OBS, "observation i uses the i-th name and index i")
+        # the inversion is a pure function of the caller's excess distribution: it must not write into it (directly or
+        # through a local alias) - a caller that inverts the same distribution twice, or keeps using it, sees the damage
+        for e_ in rules.effects_on(prog, inv, [inv.params[0]], scope=Scope(inv.node)):
+            o.violated(inv, e_.node, f"invert_single modifies the caller's excess distribution `{inv.params[0]}` in place ({e_.kind} on {e_.path}): "
+                                     "a second inversion of the same input, or any later use of it, works on the overwritten values")
 
     gf = prog.func("JointDegreeFromExcess.get_joint_degree_distribution")
     sc = Scope(gf.node)
